@@ -106,4 +106,38 @@ def framed : List (Nat × Bool) → Option (Option Nat)
   | (i, true) :: (j, false) :: rest => if i = j then framed rest else none
   | _ => none
 
+/-! ### readers sharing one transport (`_reader_lock`) as a transition system
+
+`read_message`: under the lock one transport read for the header; if the header parses and announces a
+payload, one more read for the payload. Either read may raise (time-out, connection lost) and a malformed
+header raises before the payload read: the lock is released at any of these points. -/
+
+structure RS where
+  holder : Option Nat := none
+  pc : Nat → Nat := fun _ => 0       -- 0 idle, 1 holds lock, 2 header read and a payload is due, 3 done
+  log : List (Nat × Bool) := []      -- (thread, isHeader) per transport read
+
+inductive RAct
+  | acquire (i : Nat)
+  | readHdr (i : Nat) (payloadDue : Bool)    -- `payloadDue = false`: data_length = 0, or the header is rejected
+  | readData (i : Nat)
+  | release (i : Nat)                        -- normal return or any exception inside the `with` block
+
+def rstep (s : RS) : RAct → RS
+  | .acquire i => if s.holder = none ∧ s.pc i = 0 then { s with holder := some i, pc := updPc s.pc i 1 } else s
+  | .readHdr i due => if s.pc i = 1 then { s with pc := updPc s.pc i (if due then 2 else 3), log := s.log ++ [(i, true)] } else s
+  | .readData i => if s.pc i = 2 then { s with pc := updPc s.pc i 3, log := s.log ++ [(i, false)] } else s
+  | .release i => if s.pc i ≠ 0 then { s with holder := none, pc := updPc s.pc i 0 } else s
+
+/-- read-log acceptor, one step: the state is `none` after a violation, else `some h` where `h` is the
+    thread whose header read was the previous entry (if the previous entry was a header read) -/
+def racc : Option (Option Nat) → Nat × Bool → Option (Option Nat)
+  | none, _ => none
+  | some _, (i, true) => some (some i)
+  | some (some j), (i, false) => if i = j then some none else none
+  | some none, (_, false) => none
+
+/-- every payload read directly follows the header read of the same thread -/
+def rframed (l : List (Nat × Bool)) : Bool := (l.foldl racc (some none)).isSome
+
 end OpenHTF.AdbFrame
